@@ -23,6 +23,7 @@ type evidence struct {
 	maxQuery     float64
 	paths        int
 	syntactic    int
+	crossChecked, crossDisagree, crossUnknown int
 	nontrivial   int
 	jobs         []map[string]interface{}
 	samples      []interface{}
@@ -69,6 +70,9 @@ func (e *evidence) addJob(r *JobResult) {
 		e.paths += s.Paths
 		e.nontrivial += s.Nontrivial
 		e.syntactic += s.Syntactic
+		e.crossChecked += s.CrossChecked
+		e.crossDisagree += s.CrossDisagree
+		e.crossUnknown += s.CrossUnknown
 		j["paths"] = s.Paths
 		j["infeasible_paths"] = s.Infeasible
 		j["violations"] = len(s.Violations)
@@ -160,6 +164,7 @@ func (e *evidence) write(path string) {
 		"rule":                "evaluations = proof obligations decided = SMT queries discharged (branch feasibility, assertions, witnesses) + assertions whose condition the hash-consing term normaliser reduced to true (both sides the identical term over the symbolic inputs; counted separately as decided_by_term_identity); distinct_nontrivial = distinct (harness, parameters, path/configuration) that reached an assertion with at least one symbolic input in scope",
 		"decided_by_term_identity": e.syntactic,
 		"decided_by_solver":   e.queries,
+		"cross_solver_check":  map[string]interface{}{"second_solver": "cvc5 1.0.3", "assertion_queries_rechecked": e.crossChecked, "disagreements": e.crossDisagree, "second_solver_unknown": e.crossUnknown},
 		"explanation":         e.spec.Explanation,
 		"samples":             e.samples,
 		"paths_or_configurations": e.paths,
